@@ -68,6 +68,7 @@ def source(c):
         "content_without_tag": '#[typeshare]\n#[serde(content = "c")]\npub enum Host { A(u32), B }\n',
         "tag_on_unit_enum": '#[typeshare]\n#[serde(tag = "t")]\npub enum Host { A, B }\n',
         "content_on_unit_enum": '#[typeshare]\n#[serde(content = "c")]\npub enum Host { A, B }\n',
+        "tagged_enum_only_data_variant": f'#[typeshare]\n#[serde(tag = "t", content = "c")]\npub enum Host {{\n    Keep,\n    Also,\n    {sk}\n    Bad(u32),\n}}\n',
         "const_string": '#[typeshare]\npub const HOST: &str = "text";\n',
         "const_float": "#[typeshare]\npub const HOST: f64 = 1.5;\n",
         "const_neg": "#[typeshare]\npub const HOST: i32 = -5;\n",
